@@ -11,9 +11,17 @@ stored layers are well formed (`SidecarOK`).
 
 Styles.  `Style.key` is the de-duplication key of `update_cell_styles` (repaired),
 `Style.dedup` the grouping it produces, `Style.fromStorage` the flags of a style that was read.
+
+Style storage path (`Model/StyleStore.lean`).  `StyleStore.Sty` is the sixteen public attributes of a
+`Style`, `addParagraphStyle` / `updateParagraphStyle` / `addCellStyle` are the writers,
+`StyleStore.fromStorage` is `Style.from_storage` over the readers (own member, else the parent's, else
+the protobuf default), `toBufferIds` the style ids `Cell._to_buffer` writes, `Num` the rounding of
+protobuf `float` fields (`f32`) and Python float arithmetic (`f64`); `quantize n s` is `s` with its five
+float attributes as a `float` field holds them (`= s` when they are binary32 values).
 -/
 import NumbersModel.Lemmas.Border
 import NumbersModel.Lemmas.Style
+import NumbersModel.Lemmas.StyleStoreRW
 namespace NumbersModel.Props.C15
 open NumbersModel NumbersModel.Border
 
@@ -117,6 +125,178 @@ theorem reading_is_pure :
     ∀ (cells : List (Bool × Style.CellAttrs)), (∀ c ∈ cells, c.1 = Style.fromStorage.updCell) →
       Style.dedup Style.key cells = cells.map (fun _ => none) :=
   ⟨rfl, fun cells h => Style.dedupGo_clean Style.key cells h []⟩
+
+/-! ### style storage path: every attribute is stored in and read from its own field -/
+
+section storage
+open NumbersModel.StyleStore
+
+/-- **colour arithmetic**: `round(f32(c / 255) * 255) = c` for every channel value `0 ≤ c ≤ 255`, for every
+    rounding behaviour of the float32 store and of the two Python float operations whose relative error is
+    at most `2^-24` (`RelErr24 f : ∀ x, |f x - x| ≤ |x| / 2^24`). Over the rationals; no enumeration. -/
+theorem colour_roundtrip (n : Num) (h32 : RelErr24 n.f32) (h64 : RelErr24 n.f64) (c : Int) (h0 : 0 ≤ c) (h255 : c ≤ 255) :
+    chanOfArc n (chanToArc n c) = c :=
+  chan_roundtrip_of_relErr n h32 h64 c h0 h255
+
+/-- the same for the concrete formats (correctly rounded binary64 division and product, binary32 store,
+    `round` half-even): all 256 values decided in the kernel. -/
+theorem colour_roundtrip_binary32 (c : Int) (h0 : 0 ≤ c) (h255 : c ≤ 255) :
+    chanOfArc Num.ieee (chanToArc Num.ieee c) = c :=
+  chan_roundtrip_ieee c h0 h255
+
+/-- a font family that `add_paragraph_style` accepts is read back from the name it stores
+    (`FONT_NAME_TO_FAMILY[FONT_FAMILY_TO_NAME[f]] = f` for every family of the regenerated table). -/
+theorem font_name_roundtrip (family name : Codes) (h : dictGet fontFamilyToName family = .ok name) :
+    dictGet Gen.fontNameToFamily name = .ok family :=
+  font_roundtrip family name h
+
+/-- **write, then read, attribute by attribute**.  Let `s` be any style whose colour components are in
+    0..255, whose alignment members are enum members and which has at most one fill (`Storable`), `p` the
+    paragraph-style archive and `ca` the cell-style archive the writers produce for it (so the font is in the
+    table and the background is not a gradient).  Then for every store, table and cell whose text-style key
+    resolves to `p` and whose cell-style key resolves to `ca` — with any parent references, and any name on
+    the cell archive — `Style.from_storage` returns exactly `s` with its floats as binary32 holds them: no
+    attribute is read from another attribute's field. -/
+theorem style_attributes_after_reload_quantized (n : Num) (hcol : ColourOK n) (s : Sty) (hs : s.Storable)
+    (imgs imgs' : Images) (hw : imgs.WF) (hag : ∀ img, s.bgImage = some img → imgs.Agrees img)
+    (p : ParaArc) (ca : CellArc) (hp : addParagraphStyle n s = .ok p) (hc : addCellStyle n s imgs = .ok (ca, imgs'))
+    (par cpar : Option Nat) (nm : Text) (st : Store) (t : TableCtx) (c : CellIds)
+    (hpt : Points st t c { p with parent := par } { ca with parent := cpar, name := nm }) :
+    fromStorage n st t imgs' c = .ok (quantize n s) :=
+  fromStorage_written n hcol s hs imgs imgs' hw hag p ca hp hc par cpar nm st t c hpt
+
+/-- **styles read back equal after reload**: if moreover the five float attributes are values a `float`
+    field holds (`n.f32 x = x`), the style read back is `s` itself. -/
+theorem style_attributes_after_reload (n : Num) (hcol : ColourOK n) (s : Sty) (hs : s.Storable)
+    (hrep : n.f32 s.fontSize = s.fontSize ∧ n.f32 s.firstIndent = s.firstIndent ∧ n.f32 s.leftIndent = s.leftIndent ∧
+      n.f32 s.rightIndent = s.rightIndent ∧ n.f32 s.textInset = s.textInset)
+    (imgs imgs' : Images) (hw : imgs.WF) (hag : ∀ img, s.bgImage = some img → imgs.Agrees img)
+    (p : ParaArc) (ca : CellArc) (hp : addParagraphStyle n s = .ok p) (hc : addCellStyle n s imgs = .ok (ca, imgs'))
+    (par cpar : Option Nat) (nm : Text) (st : Store) (t : TableCtx) (c : CellIds)
+    (hpt : Points st t c { p with parent := par } { ca with parent := cpar, name := nm }) :
+    fromStorage n st t imgs' c = .ok s := by
+  rw [fromStorage_written n hcol s hs imgs imgs' hw hag p ca hp hc par cpar nm st t c hpt]
+  obtain ⟨h1, h2, h3, h4, h5⟩ := hrep
+  cases s
+  simp only [quantize] at *
+  rw [h1, h2, h3, h4, h5]
+
+/-- the concrete formats need no hypothesis on the numbers. -/
+theorem style_attributes_after_reload_binary32 (s : Sty) (hs : s.Storable)
+    (imgs imgs' : Images) (hw : imgs.WF) (hag : ∀ img, s.bgImage = some img → imgs.Agrees img)
+    (p : ParaArc) (ca : CellArc) (hp : addParagraphStyle Num.ieee s = .ok p)
+    (hc : addCellStyle Num.ieee s imgs = .ok (ca, imgs'))
+    (par cpar : Option Nat) (nm : Text) (st : Store) (t : TableCtx) (c : CellIds)
+    (hpt : Points st t c { p with parent := par } { ca with parent := cpar, name := nm }) :
+    fromStorage Num.ieee st t imgs' c = .ok (quantize Num.ieee s) :=
+  fromStorage_written Num.ieee (fun c h0 h1 => chan_roundtrip_ieee c h0 h1) s hs imgs imgs' hw hag p ca hp hc par cpar nm st t c hpt
+
+/-- a style that already has a paragraph archive and is changed (any attributes, the name included —
+    repaired) is read back from the updated archive. -/
+theorem updated_style_reads_back (n : Num) (hcol : ColourOK n) (s : Sty) (hs : s.Storable)
+    (imgs imgs' : Images) (hw : imgs.WF) (hag : ∀ img, s.bgImage = some img → imgs.Agrees img)
+    (old p : ParaArc) (ca : CellArc) (hp : updateParagraphStyle n s old = .ok p) (hc : addCellStyle n s imgs = .ok (ca, imgs'))
+    (st : Store) (t : TableCtx) (c : CellIds) (hpt : Points st t c p ca) :
+    fromStorage n st t imgs' c = .ok (quantize n s) := by
+  obtain ⟨q, hq, rfl⟩ := updateParagraphStyle_ok n s old p hp
+  exact fromStorage_written n hcol s hs imgs imgs' hw hag q ca hq hc old.parent ca.parent ca.name st t c hpt
+
+/-- **sharing a cell archive through the fingerprint is sound**: a cell whose text style was written for `s'`
+    and whose cell style is the archive written for another style `s` with the same fingerprint (image
+    file names identify images) reads `s'` back. -/
+theorem shared_cell_style_reads_back (n : Num) (hcol : ColourOK n) (s s' : Sty) (hs' : s'.Storable)
+    (hfp : fingerprint s = fingerprint s')
+    (hfn : ∀ i i', s.bgImage = some i → s'.bgImage = some i' → i.filename = i'.filename → i = i')
+    (imgs imgs' : Images) (hw : imgs.WF) (hag : ∀ img, s'.bgImage = some img → imgs.Agrees img)
+    (p' : ParaArc) (ca : CellArc) (hp : addParagraphStyle n s' = .ok p') (hc : addCellStyle n s imgs = .ok (ca, imgs'))
+    (st : Store) (t : TableCtx) (c : CellIds) (hpt : Points st t c p' ca) :
+    fromStorage n st t imgs' c = .ok (quantize n s') :=
+  fromStorage_written n hcol s' hs' imgs imgs' hw hag p' _ hp (addCellStyle_of_fingerprint n s s' imgs imgs' ca hfp hfn hc)
+    p'.parent ca.parent ca.name st t c hpt
+
+/-- **two styles that differ are stored in archives that differ**: storable styles (same image table) whose
+    paragraph archives and cell archives coincide agree on all sixteen attributes (floats as stored). -/
+theorem style_archives_injective (n : Num) (hcol : ColourOK n) (s s' : Sty) (hs : s.Storable) (hs' : s'.Storable)
+    (imgs imgs' : Images) (hw : imgs.WF) (hag : ∀ img, s.bgImage = some img → imgs.Agrees img)
+    (hag' : ∀ img, s'.bgImage = some img → imgs.Agrees img) (p : ParaArc) (ca : CellArc)
+    (hp : addParagraphStyle n s = .ok p) (hp' : addParagraphStyle n s' = .ok p)
+    (hc : addCellStyle n s imgs = .ok (ca, imgs')) (hc' : addCellStyle n s' imgs = .ok (ca, imgs')) :
+    quantize n s = quantize n s' := by
+  let t : TableCtx := ⟨[(1, 1), (2, 2)], 1, 0, 0, 0, 0, 0, 0, 0⟩
+  have hpt : Points [(1, .para p), (2, .cell ca)] t ⟨0, 0, some 1, some 2⟩ p ca :=
+    ⟨⟨1, rfl, rfl⟩, ⟨2, rfl, rfl⟩⟩
+  have h1 := fromStorage_written n hcol s hs imgs imgs' hw hag p ca hp hc p.parent ca.parent ca.name _ t _ hpt
+  have h2 := fromStorage_written n hcol s' hs' imgs imgs' hw hag' p ca hp' hc' p.parent ca.parent ca.name _ t _ hpt
+  rw [h1] at h2
+  exact Except.ok.inj h2
+
+/-- **the ids of a saved cell**: a cell without `_style` keeps its style ids and leaves the table's style list
+    untouched; a cell whose style has the text object `pobj` and the cell object `cobj` is given keys that
+    resolve to these objects; the list stays well formed and is only appended to. -/
+theorem saved_cell_style_ids (dl : StyleList) (c : CellIds) (hw : dl.WF) :
+    toBufferIds dl c none = (c, dl) ∧
+    ∀ pobj cobj, let r := toBufferIds dl c (some (some pobj, some cobj))
+      r.2.WF ∧ (∃ ext, r.2.entries = dl.entries ++ ext) ∧
+      (∃ k, r.1.textStyleId = some k ∧ (k, pobj) ∈ r.2.entries) ∧
+      (∃ k, r.1.cellStyleId = some k ∧ (k, cobj) ∈ r.2.entries) ∧ r.1.row = c.row ∧ r.1.col = c.col :=
+  toBufferIds_spec dl c hw
+
+/-- **a restyled cell reads its style back** (one cell, end to end): the archives written for `s` sit in the
+    store at `pobj` / `cobj`, `_to_buffer` points the cell at them through the table's style list; then
+    `Style.from_storage` of that cell returns `s` (floats as stored). -/
+theorem restyled_cell_reads_back (n : Num) (hcol : ColourOK n) (s : Sty) (hs : s.Storable)
+    (imgs imgs' : Images) (hw : imgs.WF) (hag : ∀ img, s.bgImage = some img → imgs.Agrees img)
+    (p : ParaArc) (ca : CellArc) (hp : addParagraphStyle n s = .ok p) (hc : addCellStyle n s imgs = .ok (ca, imgs'))
+    (st : Store) (pobj cobj : Nat) (hpo : getObj st pobj = .ok (.para p)) (hco : getObj st cobj = .ok (.cell ca))
+    (t : TableCtx) (dl : StyleList) (hdl : dl.WF) (c : CellIds) :
+    fromStorage n st { t with styleList := (toBufferIds dl c (some (some pobj, some cobj))).2.entries } imgs'
+      (toBufferIds dl c (some (some pobj, some cobj))).1 = .ok (quantize n s) := by
+  obtain ⟨wf, -, ⟨k1, hk1, m1⟩, ⟨k2, hk2, m2⟩, -⟩ := (toBufferIds_spec dl c hdl).2 pobj cobj
+  apply fromStorage_written n hcol s hs imgs imgs' hw hag p ca hp hc p.parent ca.parent ca.name
+  exact ⟨⟨k1, hk1, by rw [tableStyle_of_mem _ _ k1 pobj wf.1 m1]; exact hpo⟩,
+         ⟨k2, hk2, by rw [tableStyle_of_mem _ _ k2 cobj wf.1 m2]; exact hco⟩⟩
+
+/-! non-vacuity: a concrete style with every attribute off its default, a colour fill, through the real tables -/
+
+def helv : Codes := [72, 101, 108, 118, 101, 116, 105, 99, 97, 32, 78, 101, 117, 101]   -- "Helvetica Neue"
+def sty1 : Sty :=
+  { halign := 2, valign := 1, bgImage := none, bgColor := .rgb ⟨127, 128, 254⟩, fontColor := ⟨255, 1, 0⟩, fontSize := 27 / 2,
+    fontName := helv, bold := true, italic := false, strikethrough := true, underline := true, firstIndent := 1 / 8,
+    leftIndent := 11, rightIndent := 5 / 2, textInset := 31 / 4, textWrap := false, name := "S 1".toList }
+def sty2 : Sty := { sty1 with bgColor := .none, bgImage := some ⟨"a.png".toList, 7⟩, leftIndent := 5 / 2, rightIndent := 11 }
+
+def written (s : Sty) : PyM Sty := do
+  let p ← addParagraphStyle Num.ieee s
+  let (c, imgs) ← addCellStyle Num.ieee s ⟨[], 40⟩
+  fromStorage Num.ieee [(9, .para p), (10, .cell c)] ⟨[(1, 9), (2, 10)], 3, 1, 0, 0, 0, 0, 0, 0⟩ imgs ⟨2, 1, some 1, some 2⟩
+
+example : written sty1 = .ok sty1 := by decide +kernel
+example : written sty2 = .ok sty2 := by decide +kernel
+/-- a value binary32 cannot hold comes back rounded (known finding `style-float-not-binary32`) -/
+example : written { sty1 with firstIndent := 101 / 100 } = .ok { sty1 with firstIndent := 4236247 / 4194304 } := by decide +kernel
+/-- a gradient background cannot be written (known finding `gradient-style-cannot-be-saved`) -/
+example : written { sty1 with bgColor := .gradient [⟨1, 2, 3⟩] } = .error .AttributeError := by decide +kernel
+/-- inheritance: a text style without `bold` / `font_size` takes them from its parent, and the protobuf default
+    when the parent has none (one level only) -/
+def bare : ParaArc := ⟨"child".toList, some 5, ⟨none, none, none, none, none, none, some [72, 101, 108, 118, 101, 116, 105, 99, 97, 78, 101, 117, 101], none⟩, ⟨none, none, none, none⟩⟩
+def parent5 : ParaArc := ⟨"parent".toList, some 6, ⟨none, some true, none, none, none, some 9, none, none⟩, ⟨some 1, none, none, none⟩⟩
+example : (fromStorage Num.ieee [(4, .para bare), (5, .para parent5)] ⟨[(1, 4)], 1, 0, 0, 0, 0, 0, 0, 0⟩ ⟨[], 1⟩ ⟨0, 0, some 1, none⟩).map
+    (fun s => (s.bold, s.italic, s.fontSize, s.halign, s.textInset)) = .ok (true, false, 9, 1, 4) := by decide +kernel
+/-- the colour hypothesis is satisfiable, and a channel scaled by 256 instead of 255 would not come back -/
+example : RelErr24 (fun x => x) := fun x => by show |x - x| ≤ |x| / 2 ^ 24; rw [sub_self, abs_zero]; exact div_nonneg (abs_nonneg x) (by norm_num)
+example : roundHalfEven (Num.ieee.f64 (Num.ieee.f32 (Num.ieee.f64 ((255 : Rat) / 256)) * 255)) = 254 := by decide +kernel
+/-- two cells, the second not restyled: its ids and the list are untouched -/
+example : (toBufferAll ⟨[(1, 30), (2, 31)], 3⟩ [(⟨0, 0, some 1, none⟩, some (some 40, some 41)), (⟨0, 1, some 1, some 2⟩, none)]) =
+    ([⟨0, 0, some 3, some 4⟩, ⟨0, 1, some 1, some 2⟩], ⟨[(1, 30), (2, 31), (3, 40), (4, 41)], 5⟩) := by decide
+
+/-- the pinned `update_paragraph_style` leaves `super.name` alone: a renamed style reloads under its old name. -/
+example : (updateParagraphStylePinned Num.ieee { sty1 with name := "B".toList }
+      ⟨"A".toList, none, ⟨none, none, none, none, none, none, none, none⟩, ⟨none, none, none, none⟩⟩).map (·.name) = .ok "A".toList ∧
+    (updateParagraphStyle Num.ieee { sty1 with name := "B".toList }
+      ⟨"A".toList, none, ⟨none, none, none, none, none, none, none, none⟩, ⟨none, none, none, none⟩⟩).map (·.name) = .ok "B".toList := by
+  decide +kernel
+
+end storage
 
 /-! ### the defects of the pinned commit, as theorems about the pinned variants -/
 
